@@ -90,6 +90,15 @@ def run_jobs(jobs, tier, use_cache, progress=True, pid=None, known=None):
                 return (h, cfg, None)
             tmo = h["timeout"] if tier == "thorough" else min(h["timeout"], int(os.environ.get("VERIF_QUICK_CAP", "1500")))
             r = kani.run_harness(h, cfg, tmo, h["mem"], use_cache=use_cache)
+            # a changed tree may call into a loop the harness's unwind bound does not cover (e.g. the scan for the
+            # last default-channel token): an unwinding failure alone is retried once with a generous bound (cheap
+            # harnesses only), so that the change is decided instead of being left inconclusive
+            if (r.get("status") == "fail" and r.get("failed_checks") and all(kani.is_unwind_failure(fc) for fc in r["failed_checks"])
+                    and registry.cost(h) <= 150 and not stop[0]):
+                r2 = kani.run_harness(h, cfg, tmo, h["mem"], use_cache=False, extra_args=["--unwind", "12"], log_tag=".unwind12")
+                if r2.get("status") in ("pass", "fail"):
+                    r2["unwind_retry"] = 12
+                    r = r2
         except Exception as e:  # pragma: no cover
             r = {"name": h["name"], "cfg": cfg, "status": "error", "log_tail": repr(e), "failed_checks": [],
                  "checks_total": 0, "checks_failed": 0, "covers_sat": 0, "covers_total": 0, "reused": False,
